@@ -67,27 +67,68 @@ def nontrivial(s, rows):
     return faulty and called
 
 
-def hist_scenarios(tier, rnd):
+def _core_vector(s):
+    """prompt / rank 1 rejections and rank 2 acceptances only"""
+    return all(n.get("out") in ("error", "slowerr") or (n.get("out") == "slowok" and n.get("lat") == 2)
+               for n in s["calls"][0]["nodes"])
+
+
+def generate(tier):
+    """All TLC scenario generations of the check, side by side (they are independent of each other)."""
+    n = 160 if tier == "quick" else 4000
+    nh = 150 if tier == "quick" else 3000
+    jobs = {
+        "base": dict(module="Scen_Submitter", cfg="Scen_Submitter_base.cfg", exhaustive=True),
+        "serial": dict(module="Scen_Submitter", cfg="Scen_Submitter_serial.cfg", exhaustive=True),
+        "classify": dict(module="Scen_Submitter", cfg="Scen_Submitter_classify.cfg", exhaustive=True),
+        "imm": dict(module="Scen_Submitter", cfg="Scen_Submitter_imm.cfg", exhaustive=True),
+        "sim": dict(module="Scen_Submitter", cfg="Scen_Submitter_sim.cfg", num=n, depth=6),
+        "hcarry": dict(module="Scen_SubmitterHist", cfg="Scen_SubmitterHist_carry.cfg", exhaustive=True),
+        "hover": dict(module="Scen_SubmitterHist", cfg="Scen_SubmitterHist_overlap.cfg", exhaustive=True),
+        "hkinds": dict(module="Scen_SubmitterHist", cfg="Scen_SubmitterHist_kinds.cfg", exhaustive=True),
+        "hsim": dict(module="Scen_SubmitterHist", cfg="Scen_SubmitterHist_sim.cfg", num=max(60, nh // 6), depth=40),
+    }
+
+    def one(name):
+        j = dict(jobs[name])
+        return name, vf.tlc_scenarios(PID, j.pop("module"), j.pop("cfg"), name="scen-" + name, **j)
+
+    with concurrent.futures.ThreadPoolExecutor(max_workers=5) as ex:
+        return dict(ex.map(one, list(jobs)))
+
+
+def hist_scenarios(tier, rnd, gen):
     """Histories of submissions on ONE instance (TLC: Scen_SubmitterHist)."""
     out = []
-    carry = vf.tlc_scenarios(PID, "Scen_SubmitterHist", "Scen_SubmitterHist_carry.cfg", exhaustive=True, name="scen-hcarry")
-    over = vf.tlc_scenarios(PID, "Scen_SubmitterHist", "Scen_SubmitterHist_overlap.cfg", exhaustive=True, name="scen-hover")
+    carry = gen["hcarry"]
+    over = gen["hover"]
     if len(carry) != 6912 or len(over) != 2304:
         raise vf.Broken("expected 6912 carry and 2304 overlap histories, got %d and %d" % (len(carry), len(over)))
+    # every kind with its OWN node list (different sizes) on one instance, every kind run, rejections that
+    # arrive before the first acceptance: 8 patterns x 54 vectors, 8 submissions each
+    kinds = gen["hkinds"]
+    if len(kinds) != 432:
+        raise vf.Broken("expected 432 per-kind node list histories, got %d" % len(kinds))
     n = 150 if tier == "quick" else 3000
-    sim = vf.tlc_scenarios(PID, "Scen_SubmitterHist", "Scen_SubmitterHist_sim.cfg", num=max(60, n // 6), depth=24, name="scen-hsim")
+    sim = gen["hsim"]
     rnd.shuffle(sim)
     if tier == "quick":
         carry = rnd.sample(carry, 220)
         over = rnd.sample(over, 110)
-    out += carry + over + sim[:n]
+        # the core of the class - delayed and prompt rejections, then an acceptance of rank 2 - is run in full
+        # (18 vectors x 8 patterns); the vectors with an acceptance of rank 1 (only a prompt rejection can
+        # precede it) or a hanging node (each of the 8 submissions lasts T + tolerance) are sampled
+        rest = [k for k in kinds if not _core_vector(k)]
+        kinds = [k for k in kinds if _core_vector(k)] + rnd.sample(rest, 40)
+    out += carry + over + kinds + sim[:n]
     return out
 
 
 def scenarios(tier):
     rnd = random.Random(vf.seed())
     out = []
-    base = vf.tlc_scenarios(PID, "Scen_Submitter", "Scen_Submitter_base.cfg", exhaustive=True, name="scen-base")
+    gen = generate(tier)
+    base = gen["base"]
     if len(base) != 343 * len(KINDS):
         raise vf.Broken("expected every outcome vector for every kind, got %d" % len(base))
     if tier == "quick":
@@ -97,22 +138,22 @@ def scenarios(tier):
                 keep += rnd.sample([b for b in base if b["kind"] == k], 100)
         base = keep
     out += base
-    serial = vf.tlc_scenarios(PID, "Scen_Submitter", "Scen_Submitter_serial.cfg", exhaustive=True, name="scen-serial")
+    serial = gen["serial"]
     if tier == "quick":
         serial = [b for b in serial if b["kind"] in FULL_IN_QUICK] + rnd.sample(
             [b for b in serial if b["kind"] not in FULL_IN_QUICK], 96)
     out += serial
-    out += vf.tlc_scenarios(PID, "Scen_Submitter", "Scen_Submitter_classify.cfg", exhaustive=True, name="scen-classify")
-    out += vf.tlc_scenarios(PID, "Scen_Submitter", "Scen_Submitter_imm.cfg", exhaustive=True, name="scen-imm")
+    out += gen["classify"]
+    out += gen["imm"]
     n = 160 if tier == "quick" else 4000
-    sim = vf.tlc_scenarios(PID, "Scen_Submitter", "Scen_Submitter_sim.cfg", num=n, depth=6, name="scen-sim")
+    sim = gen["sim"]
     rnd.shuffle(sim)
     out += sim[:n]
     if tier == "quick":
         sizes = list(range(1, 25)) + sorted(rnd.sample(range(25, 201), 36))
     else:
         sizes = list(range(1, 201))
-    out += hist_scenarios(tier, rnd)
+    out += hist_scenarios(tier, rnd, gen)
     out += [{"sub": "scatter", "items": i, "maxConc": 64} for i in sizes]
     return [dict(s, sc=i + 1) for i, s in enumerate(out)]
 
@@ -125,6 +166,9 @@ DEVIATIONS = [
     ("SubmitterInst", "MC_SubmitterInst_memofail.cfg", ("SuccessIffC",)),
     ("SubmitterInst", "MC_SubmitterInst_sharedsem.cfg", ("OfferedC", "IndependenceC")),
     ("SubmitterInst", "MC_SubmitterInst_sharedflag.cfg", ("SuccessIffC",)),
+    # failures counted against the node list of ANOTHER kind: right when the lists are equally long
+    # (MC_Submitter_wrongcount_samesize.cfg passes), rejected when the kind's own list is longer
+    ("Submitter", "MC_Submitter_dev_wrongcount.cfg", ("SuccessIff",)),
 ]
 
 
@@ -133,11 +177,15 @@ def model_checks(v, tier):
     carried between submissions that TLC must reject), side by side."""
     good = [("Submitter", "MC_Submitter.cfg", 900), ("MC_SubmitterScatter", "MC_SubmitterScatter.cfg", 300),
             ("Submitter", "MC_Submitter_hist.cfg", 900), ("Submitter", "MC_Submitter_hist_cacheok.cfg", 900),
-            ("SubmitterInst", "MC_SubmitterInst_percall.cfg", 900)]
+            ("SubmitterInst", "MC_SubmitterInst_percall.cfg", 900),
+            ("Submitter", "MC_Submitter_kinds.cfg", 900), ("Submitter", "MC_Submitter_allfailed.cfg", 900),
+            ("Submitter", "MC_Submitter_wrongcount_samesize.cfg", 900)]
     if tier == "thorough":
         good += [("Submitter", "MC_Submitter_big.cfg", 1800), ("Submitter", "MC_Submitter_hist_big.cfg", 1800),
                  ("Submitter", "MC_Submitter_hist_cacheok_big.cfg", 1800),
-                 ("SubmitterInst", "MC_SubmitterInst_percall_big.cfg", 1800)]
+                 ("SubmitterInst", "MC_SubmitterInst_percall_big.cfg", 1800),
+                 ("Submitter", "MC_Submitter_kinds_big.cfg", 1800), ("Submitter", "MC_Submitter_allfailed_big.cfg", 1800),
+                 ("Submitter", "MC_Submitter_hist_kinds.cfg", 1800)]
 
     def run_good(job):
         module, cfg, timeout = job
@@ -153,7 +201,7 @@ def model_checks(v, tier):
         vf.log("model self-check: %s/%s violates %s over histories (as it must)" % (module, cfg, r["violated"]))
         return r
 
-    ex = concurrent.futures.ThreadPoolExecutor(max_workers=5)
+    ex = concurrent.futures.ThreadPoolExecutor(max_workers=6)
     fg = [ex.submit(run_good, j) for j in good]
     fd = [ex.submit(run_dev, j) for j in DEVIATIONS]
 
@@ -192,7 +240,11 @@ def run(tier):
                           "(TLC: Scen_SubmitterHist): poison x probe pairs (any kind with the first node's version query failing "
                           "or working, then a kind with tolerated rejections), overlapped pairs of different kinds (a held node "
                           "reply of the first is released when the second has returned), simulated histories of 2-4 submissions "
-                          "(per submission: kind, payload, per node outcome and version-query outcome); immediate: every "
+                          "(per submission: kind, payload, per node outcome and version-query outcome; EVERY KIND WITH ITS OWN NODE LIST: "
+                          "any non-empty subset of the pool per kind), per-kind node lists of different sizes on one instance with every "
+                          "kind run (8 patterns: one kind has the whole pool of 3, the others 2 or 1 peers) x vectors in which prompt / "
+                          "delayed rejections arrive before the first acceptance within the time-out (ranks of delay 30/60/90 ms chosen "
+                          "by TLC: the order of the completions); immediate: every "
                           "kind x outcome; util.Scatter: items x concurrency 0..64, one trace line each; non-trivial = at least "
                           "one faulty node and at least one node really called (Scatter: more than one item); distinct by scenario")
     return v.finish()
